@@ -41,6 +41,10 @@ type spec struct {
 	Result     string            `json:"result,omitempty"` // variable returned at the end of a range / by a bare return
 	ResultType string            `json:"result_type,omitempty"`
 	ConstFiles map[string]string `json:"const_files,omitempty"` // package alias -> file with its constants
+	// Cond mode: translate the condition of the Nth (default 1st) `if` / `for` statement of the function (at any
+	// depth) whose condition's source text contains Cond. The result is a Bool.
+	Cond string `json:"cond,omitempty"`
+	Nth  int    `json:"nth,omitempty"`
 }
 
 var fset = token.NewFileSet()
@@ -482,6 +486,43 @@ func translate(repo string, sp spec) (string, error) {
 		return "", fmt.Errorf("function %s not found", sp.Func)
 	}
 	t := &tr{sp: sp, repo: repo, file: f, pkgs: map[string]*ast.File{}, locals: map[string]bool{}, consts: map[string]bool{}, rename: map[string]string{}}
+	if sp.Cond != "" {
+		var found ast.Expr
+		k := 0
+		ast.Inspect(fd.Body, func(n ast.Node) bool {
+			var c ast.Expr
+			switch v := n.(type) {
+			case *ast.IfStmt:
+				c = v.Cond
+			case *ast.ForStmt:
+				c = v.Cond
+			}
+			if c != nil && found == nil && strings.Contains(text(c), sp.Cond) {
+				k++
+				if k >= max(sp.Nth, 1) {
+					found = c
+				}
+			}
+			return true
+		})
+		if found == nil {
+			return "", fmt.Errorf("condition containing %q not found in %s", sp.Cond, sp.Func)
+		}
+		body := t.expr(found)
+		if t.err != nil {
+			return "", t.err
+		}
+		var sig strings.Builder
+		for _, p := range sp.Params {
+			ty := p.Type
+			if ty == "" {
+				ty = sp.Num
+			}
+			fmt.Fprintf(&sig, " (%s : %s)", p.Lean, ty)
+		}
+		return fmt.Sprintf("/-- translated from %s `%s`: the condition `%s` -/\ndef %s%s : Bool :=\n  %s\n", sp.File, sp.Func,
+			strings.ReplaceAll(text(found), "-/", "- /"), sp.Name, sig.String(), body), nil
+	}
 	list := fd.Body.List
 	if sp.From != "" || sp.To != "" {
 		from, to := -1, -1
@@ -597,6 +638,9 @@ func main() {
 			rt := sp.ResultType
 			if rt == "" {
 				rt = sp.Num
+			}
+			if sp.Cond != "" {
+				rt = "Bool"
 			}
 			fmt.Fprintf(&b, "/-- TRANSLATION FAILED: %s -/\nopaque %s%s : %s\n\n", strings.ReplaceAll(err.Error(), "-/", "- /"), sp.Name, sig.String(), rt)
 			continue
